@@ -4,6 +4,7 @@ import (
 	"fmt"
 	"net"
 	"runtime"
+	"strings"
 	"sync"
 	"sync/atomic"
 	"time"
@@ -22,13 +23,14 @@ type stressCfg struct {
 	Seed        uint64
 	Publishers  int
 	Subscribers int
-	Msgs        int  // per publisher
-	Retained    bool // retained updates on shared topics while clients subscribe (W3)
-	Churn       bool // subscribers that connect/subscribe/close repeatedly during the traffic (W1/W2)
-	InProc      int  // goroutines calling Server.Publish/Subscribe/Unsubscribe (W4)
-	CloseServer bool // Server.Close while traffic is still flowing (W5)
-	Reconnect   bool // a client id reconnecting right after closing (W7)
-	Fragment    bool // broker-side read fragmentation
+	Msgs        int    // per publisher
+	Retained    bool   // retained updates on shared topics while clients subscribe (W3)
+	Churn       bool   // subscribers that connect/subscribe/close repeatedly during the traffic (W1/W2)
+	InProc      int    // goroutines calling Server.Publish/Subscribe/Unsubscribe (W4)
+	CloseServer bool   // Server.Close while traffic is still flowing (W5)
+	Reconnect   bool   // a client id reconnecting right after closing (W7)
+	Fragment    bool   // broker-side read fragmentation
+	Front       string // "" = net.Pipe handed to the connection handler; "tcp", "tls", "ws" = through the library's own listener / proxy (fronts_test.go)
 	GOMAXPROCS  int
 	BufferSize  int64
 }
@@ -101,10 +103,35 @@ func runStress(cfg stressCfg) *stressResult {
 	}()
 	var connMu sync.Mutex
 	var conns []net.Conn
+	var fr *front
+	if cfg.Front != "" {
+		var err error
+		if fr, err = openFront(w, cfg.Front); err != nil {
+			res.inc("front " + cfg.Front + ": " + err.Error())
+			return res
+		}
+	}
 	dial := func(name string, o connectOpts, seed uint64) *rawclient.Client {
 		c, s := net.Pipe()
 		var srv net.Conn = s
-		if cfg.Fragment {
+		if fr != nil {
+			fc, err := fr.dial()
+			for try := 0; err != nil && try < 20; try++ { // a full accept backlog under load is not an observation
+				time.Sleep(20 * time.Millisecond)
+				fc, err = fr.dial()
+			}
+			if err != nil {
+				res.inc("front " + cfg.Front + ": dial: " + err.Error())
+				fc = c // a dead pipe: nobody serves s
+				s.Close()
+			}
+			if fc != c {
+				c.Close()
+				s.Close()
+			}
+			c, srv = fc, nil
+		}
+		if cfg.Fragment && srv != nil {
 			fr := spec.NewRand(seed)
 			var fmu sync.Mutex
 			cc := chaos.Wrap(s)
@@ -121,7 +148,9 @@ func runStress(cfg stressCfg) *stressResult {
 			}
 			srv = cc
 		}
-		go w.svr.VerifServe(srv)
+		if srv != nil {
+			go w.svr.VerifServe(srv)
+		}
 		connMu.Lock()
 		conns = append(conns, c)
 		connMu.Unlock()
@@ -426,7 +455,11 @@ func runStress(cfg stressCfg) *stressResult {
 			})
 		}
 	}
-	if !cfg.CloseServer {
+	if fr != nil {
+		for _, sg := range fr.shutdown() {
+			res.viol(sg[0], sg[1])
+		}
+	} else if !cfg.CloseServer {
 		func() {
 			defer func() { recover() }()
 			w.svr.Close()
@@ -444,6 +477,9 @@ func runStress(cfg stressCfg) *stressResult {
 	res.Subs = int64(len(subs))
 	res.Churns = atomic.LoadInt64(&churns)
 	// let the library's goroutines drain before the next scenario
-	noLibGoroutines(5 * time.Second)
+	left := noLibGoroutines(5 * time.Second)
+	if fr != nil && len(left) > 0 {
+		res.viol("c16:front:goroutines-left:"+cfg.Front+":"+strings.Join(libTopsNow(), "+"), fmt.Sprintf("the server behind the %s front is closed and every client connection has been closed: %d goroutine(s) of the library remain: %v", cfg.Front, len(left), libTopsNow()))
+	}
 	return res
 }
